@@ -140,6 +140,17 @@ class Case:
         return ("%s %s %d %s\n" % (self.cmd, self.id, len(body), fl)).encode("utf-8") + body + b"\n"
 
 
+PROBE_AS_CAP = int(float(os.environ.get("VF_PROBE_AS_GB", "8")) * (1 << 30))
+
+
+def _cap_address_space():
+    import resource
+    try:
+        resource.setrlimit(resource.RLIMIT_AS, (PROBE_AS_CAP, PROBE_AS_CAP))
+    except (ValueError, OSError):
+        pass
+
+
 def _run_shard(cases, workdir, shard_no, timeout_per_shard, env=None, max_hangs=None, probe_cmd=None, san_log=None):
     """Feed `cases` to one probe process (restarting after a death or a hang).
     Returns {id: result-dict}. After `max_hangs` hangs the remaining cases are skipped."""
@@ -162,8 +173,12 @@ def _run_shard(cases, workdir, shard_no, timeout_per_shard, env=None, max_hangs=
                 f.write(c.encode())
         timed_out = False
         with open(inp, "rb") as fi, open(outp, "wb") as fo:
+            # the ordinary probe gets a cap on its address space: a generated program that doubles a string in a loop
+            # asks for tens of gigabytes within its step budget, and 16 such workers would bring the kernel's
+            # out-of-memory killer down on the machine. Past the cap the allocation fails and the worker aborts
+            # ("died", which every caller already handles). Sanitizer builds reserve terabytes of shadow memory: no cap.
             p = subprocess.Popen(probe_cmd or [PROBE_BIN], stdin=fi, stdout=fo, stderr=subprocess.DEVNULL,
-                                 env=env or os.environ, cwd=run_cwd())
+                                 env=env or os.environ, cwd=run_cwd(), preexec_fn=(None if probe_cmd else _cap_address_space))
             try:
                 rc = p.wait(timeout=timeout_per_shard)
             except subprocess.TimeoutExpired:
